@@ -322,7 +322,29 @@ impl<'a> Fields<'a> {
                         }
                     });
 
-                    self.0.push(resolve_fut);
+                    // A field error nulls the field itself when its type is nullable,
+                    // otherwise it propagates to the parent.
+                    let nullable = ctx
+                        .schema_env
+                        .registry
+                        .types
+                        .get(T::type_name().as_ref())
+                        .and_then(|ty| ty.field_by_name(field.node.name.node.as_str()))
+                        .is_some_and(|field| !field.ty.ends_with('!'));
+                    if nullable {
+                        let ctx = ctx.clone();
+                        self.0.push(Box::pin(async move {
+                            match resolve_fut.await {
+                                Err(err) => {
+                                    ctx.add_error(err);
+                                    Ok((field.node.response_key().node.clone(), Value::Null))
+                                }
+                                res => res,
+                            }
+                        }));
+                    } else {
+                        self.0.push(resolve_fut);
+                    }
                 }
                 selection => {
                     let (type_condition, selection_set) = match selection {
